@@ -687,4 +687,665 @@ Proof.
     [apply rep_coll_remove_full | apply rep_refl].
 Qed.
 
+(* ---- frame facts for the removal direction (pop, clear) ---- *)
+Ltac quiet_silent_step := apply quiet_silent; reflexivity.
+
+Lemma quiet_uc_clear k s f p : quiet k s (uc_clear m s f p).
+Proof.
+  unfold uc_clear. destruct (f_cont (fd m f)); [|apply quiet_refl].
+  destruct p; [quiet_silent_step | apply quiet_refl].
+Qed.
+
+Lemma quiet_inv_add k s o c : quiet k s (inv_add s o c).
+Proof. unfold inv_add. destruct (cmem c (inv s o)); [apply quiet_refl | quiet_silent_step]. Qed.
+
+Lemma quiet_inv_del k s o c : quiet k s (inv_del s o c).
+Proof. unfold inv_del. quiet_silent_step. Qed.
+
+Lemma quiet_set_store k s k' v : k' <> k -> quiet k s (set_store m s k' v).
+Proof.
+  intros Hk. destruct k' as [x f]. unfold set_store. cbn [fst snd].
+  eapply quiet_step; [reflexivity | exact Hk | red_state; apply upd_other; exact Hk].
+Qed.
+
+Lemma quiet_set_none_raw k s k' : k' <> k -> quiet k s (set_none_raw m s k').
+Proof.
+  intros Hk. unfold set_none_raw.
+  destruct (f_isref (fd m (snd k'))); [|apply quiet_set_store; exact Hk].
+  eapply quiet_trans; [apply quiet_set_store; exact Hk | apply quiet_uc_clear].
+Qed.
+
+Lemma quiet_coll_remove_raw k s k' x : k' <> k -> quiet k s (coll_remove_raw m s k' x).
+Proof.
+  intros Hk. destruct k' as [a f]. unfold coll_remove_raw. cbn [fst snd].
+  destruct (vmem (VObj x) (vals s (a, f))); [|apply quiet_refl].
+  eapply quiet_trans; [apply (quiet_uc_clear k s f (Some x))|].
+  eapply quiet_step; [reflexivity | exact Hk | red_state; apply upd_other; exact Hk].
+Qed.
+
+Lemma quiet_update_opposite_remove k s x f y :
+  (forall g, f_opp (fd m f) = Some g ->
+     (y, g) <> k \/ (f_many (fd m g) = true /\ (y, g) = (x, f))) ->
+  quiet k s (update_opposite_remove m s x f y).
+Proof.
+  intros Hg. unfold update_opposite_remove. destruct (f_opp (fd m f)) as [g|].
+  - destruct (Hg g eq_refl) as [Hn|[Hm He]].
+    + destruct (f_many (fd m g)).
+      * destruct (cell_eqb (y, g) (x, f)); [apply quiet_refl | apply quiet_coll_remove_raw; exact Hn].
+      * apply quiet_set_none_raw; exact Hn.
+    + rewrite Hm, He, cell_eqb_refl. apply quiet_refl.
+  - destruct (cmem (x, f) (inv s y)); [apply quiet_inv_del | apply quiet_inv_add].
+Qed.
+
+(* removing one element of the many-valued (x, f) touches the opposite end only *)
+Lemma quiet_unlink_elem s x f v :
+  f_many (fd m f) = true -> quiet (x, f) s (unlink_elem m s x f v).
+Proof.
+  intros Hm. unfold unlink_elem. destruct (f_isref (fd m f)); [|apply quiet_refl].
+  destruct (obj_of v) as [y|]; [|apply quiet_refl].
+  eapply quiet_trans; [apply quiet_uc_clear|]. apply quiet_update_opposite_remove.
+  intros g Hg. destruct (f_many (fd m g)) eqn:Hmg.
+  - destruct (cell_eqb_spec (y, g) (x, f)) as [E|N]; [right; split; [reflexivity | exact E] | left; exact N].
+  - left. intros E. inversion E; subst. congruence.
+Qed.
+
+Lemma rep_coll_pop_full s x f i :
+  f_many (fd m f) = true -> rep m s (snd (fst (coll_pop_full m s (x, f) i))).
+Proof.
+  intros Hm. unfold coll_pop_full.
+  destruct (vals s (x, f)) as [|a l0] eqn:El; [apply rep_refl|]. rewrite <- El.
+  destruct (py_pop i (vals s (x, f))) as [[v l']|] eqn:Ep; cbn [fst snd]; [|apply rep_refl].
+  pose proof (quiet_unlink_elem (set_vals s (x, f) l') x f v Hm) as Hq.
+  eapply (rep_except_close m (x, f) s (unlink_elem m (set_vals s (x, f) l') x f v)).
+  - eapply rep_except_trans; [apply rep_except_set_vals|].
+    apply rep_quiet_except; [apply rep_unlink_elem | exact Hq].
+  - reflexivity.
+  - reflexivity.
+  - intros k' _. reflexivity.
+  - reflexivity.
+  - destruct Hq as [Hv _]. red_state. rewrite Hv. red_state. rewrite upd_same.
+    unfold apply1, act. cbn [n_kind n_old n_new n_feat items fold_left].
+    intros w. rewrite cnt_raw_remove.
+    assert (Hin : vmem v (vals s (x, f)) = true).
+    { rewrite vmem_cnt, (cnt_py_pop v _ _ _ _ Ep). unfold ind. rewrite veqb_refl. reflexivity. }
+    rewrite Hin, (cnt_py_pop w _ _ _ _ Ep). lia.
+Qed.
+
+Lemma rep_fold_unlink s x f l : rep m s (fold_left (fun acc v => unlink_elem m acc x f v) l s).
+Proof.
+  revert s; induction l as [|v l IH]; intros s; simpl; [apply rep_refl|].
+  eapply rep_trans; [apply rep_unlink_elem | apply IH].
+Qed.
+
+Lemma quiet_fold_unlink s x f l :
+  f_many (fd m f) = true ->
+  quiet (x, f) s (fold_left (fun acc v => unlink_elem m acc x f v) l s).
+Proof.
+  intros Hm. revert s; induction l as [|v l IH]; intros s; simpl; [apply quiet_refl|].
+  eapply quiet_trans; [apply quiet_unlink_elem; exact Hm | apply IH].
+Qed.
+
+Lemma rep_coll_clear_full s x f :
+  f_many (fd m f) = true -> rep m s (coll_clear_full m s (x, f)).
+Proof.
+  intros Hm. unfold coll_clear_full. cbv zeta.
+  destruct (vals s (x, f)) as [|a l0] eqn:El; [apply rep_refl|].
+  pose proof (quiet_fold_unlink s x f (a :: l0) Hm) as Hq.
+  eapply (rep_except_close m (x, f) s (fold_left (fun acc v => unlink_elem m acc x f v) (a :: l0) s)).
+  - apply rep_quiet_except; [apply rep_fold_unlink | exact Hq].
+  - reflexivity.
+  - reflexivity.
+  - intros k' Hk. red_state. apply upd_other. congruence.
+  - reflexivity.
+  - red_state. rewrite upd_same. unfold apply1, act. cbn [n_kind n_old n_new n_feat items].
+    rewrite El. apply sc_sym. apply sc_fold_remove_all. apply sc_refl.
+Qed.
+
+(* ---- frame facts for the addition direction (extend/update of a unique collection) ---- *)
+Lemma quiet_coll_remove_full k s p pf v :
+  (p, pf) <> k -> (forall g, f_opp (fd m pf) = Some g -> g <> snd k) ->
+  quiet k s (coll_remove_full m s (p, pf) v).
+Proof.
+  intros Hk Hg. unfold coll_remove_full.
+  set (s1 := if f_isref (fd m pf) then
+               match obj_of v with
+               | Some y => update_opposite_remove m (uc_clear m s pf (Some y)) p pf y
+               | None => s end else s).
+  assert (H1 : quiet k s s1).
+  { unfold s1. destruct (f_isref (fd m pf)); [|apply quiet_refl].
+    destruct (obj_of v) as [y|]; [|apply quiet_refl].
+    eapply quiet_trans; [apply quiet_uc_clear|]. apply quiet_update_opposite_remove.
+    intros g Hfg. left. intros E. apply (Hg g Hfg). rewrite <- E. reflexivity. }
+  eapply quiet_trans; [exact H1|].
+  eapply quiet_step; [reflexivity | exact Hk | red_state; apply upd_other; exact Hk].
+Qed.
+
+Lemma quiet_set_none_full k s p pf :
+  (p, pf) <> k -> (forall g, f_opp (fd m pf) = Some g -> g <> snd k) ->
+  quiet k s (set_none_full m s (p, pf)).
+Proof.
+  intros Hk Hg. unfold set_none_full.
+  destruct (f_isref (fd m pf)); cbn [negb]; [|apply quiet_set_store; exact Hk].
+  set (s2 := uc_clear m (set_store m s (p, pf) VNone) pf (obj_of (single s (p, pf)))).
+  assert (H2 : quiet k s s2).
+  { eapply quiet_trans; [apply quiet_set_store; exact Hk | apply quiet_uc_clear]. }
+  destruct (f_opp (fd m pf)) as [g|].
+  - assert (Hn : forall q, (q, g) <> k).
+    { intros q E. apply (Hg g eq_refl). rewrite <- E. reflexivity. }
+    destruct (obj_of (single s (p, pf))) as [q|]; [|exact H2].
+    destruct (f_many (fd m g)).
+    + eapply quiet_trans; [exact H2 | apply quiet_coll_remove_raw; apply Hn].
+    + destruct (cell_eqb (q, g) (p, pf)); [exact H2|].
+      eapply quiet_trans; [exact H2 | apply quiet_set_none_raw; apply Hn].
+  - destruct (obj_of (single s (p, pf))); [|exact H2].
+    eapply quiet_trans; [exact H2 | apply quiet_inv_del].
+Qed.
+
+Lemma quiet_remove_or_unset k s p pf y :
+  (p, pf) <> k -> (forall g, f_opp (fd m pf) = Some g -> g <> snd k) ->
+  quiet k s (remove_or_unset m s (p, pf) y).
+Proof.
+  intros Hk Hg. unfold remove_or_unset. cbn [snd]. destruct (f_many (fd m pf)).
+  - destruct (vmem (VObj y) (vals s (p, pf))); [apply quiet_coll_remove_full; assumption | apply quiet_refl].
+  - apply quiet_set_none_full; assumption.
+Qed.
+
+Lemma update_container_nocont s x f v p :
+  f_cont (fd m f) = false -> update_container m s x f v p = s.
+Proof. intros H. unfold update_container. rewrite H. reflexivity. Qed.
+
+(* taking y into the containment (x, f): y's previous container slot and its opposite
+   are touched; neither is (x, f) when containers are well-formed *)
+Lemma quiet_update_container_own s x f v p :
+  wf_cont m -> cont_wf m s -> quiet (x, f) s (update_container m s x f v p).
+Proof.
+  intros Hwc Hcw. unfold update_container.
+  destruct (f_cont (fd m f)) eqn:Hc; cbn [negb]; [|apply quiet_refl].
+  match goal with |- quiet _ s (match p with Some _ => _ | None => ?S1 end) => set (s1 := S1) end.
+  assert (H1 : quiet (x, f) s s1).
+  { unfold s1. destruct v as [y|]; [|apply quiet_refl]. cbv zeta.
+    set (sa := match eresource_of m s y with
+               | Some r => if nmem y (rcont s r) then res_remove_raw s r y else s
+               | None => s end).
+    assert (Ha : quiet (x, f) s sa /\ cont sa = cont s).
+    { unfold sa. destruct (eresource_of m s y); [|split; [apply quiet_refl | reflexivity]].
+      destruct (nmem y (rcont s r)); split; try apply quiet_refl; try reflexivity.
+      unfold res_remove_raw. quiet_silent_step. }
+    destruct Ha as [Ha Hca].
+    set (sb := match cont sa y with
+               | Some (p0, pf) => if negb ((p0 =? x) && (pf =? f)) then remove_or_unset m sa (p0, pf) y else sa
+               | None => sa end).
+    eapply quiet_trans; [exact Ha|]. apply (quiet_trans _ _ sb); [|quiet_silent_step].
+    unfold sb. rewrite Hca. destruct (cont s y) as [[p0 pf]|] eqn:Ecy; [|apply quiet_refl].
+    destruct (negb ((p0 =? x) && (pf =? f))) eqn:Eg; [|apply quiet_refl].
+    apply quiet_remove_or_unset.
+    - intros E. inversion E; subst. rewrite !Nat.eqb_refl in Eg. discriminate.
+    - intros g Hg E. cbn [snd] in E. subst g.
+      destruct (Hwc pf f Hg Hc) as [_ Hpf]. rewrite (Hcw y p0 pf Ecy) in Hpf. discriminate. }
+  destruct p as [p|]; [|exact H1].
+  destruct v as [y|]; [destruct (y =? p); [exact H1|] |];
+    (eapply quiet_trans; [exact H1 | quiet_silent_step]).
+Qed.
+
+Lemma quiet_set_obj_raw k s k' x :
+  k' <> k -> f_cont (fd m (snd k')) = false -> quiet k s (set_obj_raw m s k' x).
+Proof.
+  intros Hk Hc. unfold set_obj_raw.
+  destruct (f_isref (fd m (snd k'))); [|apply quiet_set_store; exact Hk].
+  rewrite update_container_nocont by exact Hc. apply quiet_set_store; exact Hk.
+Qed.
+
+Lemma quiet_coll_append_raw k s k' x :
+  k' <> k -> f_cont (fd m (snd k')) = false -> quiet k s (coll_append_raw m s k' x).
+Proof.
+  intros Hk Hc. destruct k' as [a g]. unfold coll_append_raw. cbn [fst snd] in *.
+  rewrite update_container_nocont by exact Hc.
+  eapply quiet_step; [reflexivity | exact Hk | red_state; apply upd_other; exact Hk].
+Qed.
+
+Lemma quiet_update_opposite_add s x f y :
+  wf_cont m -> f_many (fd m f) = true -> quiet (x, f) s (update_opposite_add m s x f y).
+Proof.
+  intros Hwc Hm. unfold update_opposite_add.
+  destruct (f_opp (fd m f)) as [g|] eqn:Hg; [|apply quiet_inv_add].
+  assert (Hcg : f_cont (fd m g) = false).
+  { destruct (f_cont (fd m g)) eqn:E; [|reflexivity].
+    destruct (Hwc f g Hg E) as [H _]. congruence. }
+  destruct (f_many (fd m g)) eqn:Hmg.
+  - destruct (cell_eqb_spec (y, g) (x, f)) as [E|N]; [apply quiet_refl|].
+    apply quiet_coll_append_raw; [exact N | exact Hcg].
+  - assert (N : (y, g) <> (x, f)) by (intros E; inversion E; subst; congruence).
+    eapply quiet_trans; [|apply quiet_set_obj_raw; [exact N | exact Hcg]].
+    destruct (obj_of (single s (y, g))) as [c|]; [|apply quiet_refl].
+    destruct (Nat.eqb_spec c x) as [E|Nc]; [apply quiet_refl|].
+    apply quiet_coll_remove_raw. intros E. inversion E; subst. congruence.
+Qed.
+
+Lemma quiet_link_elem s x f v :
+  wf_cont m -> cont_wf m s -> f_many (fd m f) = true -> quiet (x, f) s (link_elem m s x f v).
+Proof.
+  intros Hwc Hcw Hm. unfold link_elem. destruct (f_isref (fd m f)); [|apply quiet_refl].
+  destruct (obj_of v) as [y|]; [|apply quiet_refl].
+  eapply quiet_trans; [apply quiet_update_container_own; assumption|].
+  apply quiet_update_opposite_add; assumption.
+Qed.
+
+(* ---- extend / update ---- *)
+Lemma rep_fold_link s x f vs : rep m s (fold_left (fun acc v => link_elem m acc x f v) vs s).
+Proof.
+  revert s; induction vs as [|v vs IH]; intros s; simpl; [apply rep_refl|].
+  eapply rep_trans; [apply rep_link_elem | apply IH].
+Qed.
+
+(* unique collections: element by element "add to the own slot, then link"; one ADD_MANY at the end *)
+Lemma extend_unique_fold x f vs :
+  wf_cont m -> f_many (fd m f) = true ->
+  forall s, cont_wf m s ->
+  let sf := fold_left (fun acc v => link_elem m (set_vals acc (x, f) (raw_append true v (vals acc (x, f)))) x f v) vs s in
+  rep_except m (x, f) s sf /\
+  vals sf (x, f) = fold_left (fun acc v => raw_append true v acc) vs (vals s (x, f)).
+Proof.
+  intros Hwc Hm. induction vs as [|v vs IH]; intros s Hcw; simpl.
+  - split; [apply rep_except_refl | reflexivity].
+  - set (sw := set_vals s (x, f) (raw_append true v (vals s (x, f)))).
+    assert (Hcw' : cont_wf m sw) by exact Hcw.
+    pose proof (quiet_link_elem sw x f v Hwc Hcw' Hm) as Hq.
+    pose proof (rep_link_elem sw x f v) as Hr.
+    assert (Hcl : cont_wf m (link_elem m sw x f v)).
+    { eapply cont_wf_keeps; [exact Hcw' | exact (proj2 Hr)]. }
+    destruct (IH (link_elem m sw x f v) Hcl) as [He Hv]. split.
+    + eapply rep_except_trans; [apply rep_except_set_vals|].
+      eapply rep_except_trans; [apply rep_quiet_except; [exact Hr | exact Hq] | exact He].
+    + rewrite Hv. destruct Hq as [Hq _]. rewrite Hq. unfold sw. red_state. rewrite upd_same. reflexivity.
+Qed.
+
+Lemma rep_coll_extend_full s x f vs :
+  f_many (fd m f) = true -> (f_unique (fd m f) = true -> wf_cont m) -> cont_wf m s ->
+  rep m s (snd (coll_extend_full m s (x, f) vs)).
+Proof.
+  intros Hm Hwc Hcw. unfold coll_extend_full.
+  destruct (forallb (check_elem m f) vs); cbn [negb snd]; [|apply rep_refl].
+  destruct (f_unique (fd m f)) eqn:Hu.
+  - destruct (extend_unique_fold x f vs (Hwc eq_refl) Hm s Hcw) as [He Hv]. cbv zeta in He, Hv.
+    eapply (rep_except_close m (x, f) s _ _ _ He).
+    + reflexivity.
+    + reflexivity.
+    + intros k' _. reflexivity.
+    + reflexivity.
+    + red_state. rewrite Hv. unfold apply1, act. cbn [n_kind n_old n_new n_feat items].
+      rewrite Hu. apply sc_refl.
+  - eapply rep_trans; [apply (rep_fold_link s x f vs)|].
+    rep_atomic. rewrite Hu, fold_append_false. apply sc_refl.
+Qed.
+
+(* ---- item assignment / deletion on a unique collection: pop, then insert ---- *)
+Lemma rep_coll_setitem_full s x f i v :
+  f_many (fd m f) = true -> f_unique (fd m f) = true ->
+  rep m s (snd (coll_setitem_full m s (x, f) i v)).
+Proof.
+  intros Hm Hu. unfold coll_setitem_full.
+  destruct (check_elem m f v); cbn [negb snd]; [|apply rep_refl]. rewrite Hu.
+  destruct ((i <? 0)%Z && ((if (i <? 0)%Z then (zlen (vals s (x, f)) + i)%Z else i) <? 0)%Z);
+    [apply rep_refl|].
+  unfold seq_outcome.
+  pose proof (rep_coll_pop_full s x f (if (i <? 0)%Z then (zlen (vals s (x, f)) + i)%Z else i) Hm) as Hp.
+  destruct (fst (coll_pop_full m s (x, f) (if (i <? 0)%Z then (zlen (vals s (x, f)) + i)%Z else i))) as [[e|] s1];
+    cbn [snd] in *; [exact Hp|].
+  eapply rep_trans; [exact Hp | apply rep_coll_add_full].
+Qed.
+
+Lemma rep_coll_delitem_full s x f i :
+  f_many (fd m f) = true -> f_unique (fd m f) = true ->
+  rep m s (snd (coll_delitem_full m s (x, f) i)).
+Proof.
+  intros Hm Hu. unfold coll_delitem_full. cbn [snd]. rewrite Hu. apply rep_coll_pop_full; exact Hm.
+Qed.
+
+Lemma rep_assign_full s x f vs :
+  f_many (fd m f) = true -> (f_unique (fd m f) = true -> wf_cont m) -> cont_wf m s ->
+  rep m s (snd (assign_full m s (x, f) vs)).
+Proof.
+  intros Hm Hwc Hcw. unfold assign_full. cbn [snd].
+  destruct (forallb (check_elem m f) vs); cbn [negb snd]; [|apply rep_refl].
+  pose proof (rep_coll_clear_full s x f Hm) as Hc.
+  eapply rep_trans; [exact Hc|]. apply rep_coll_extend_full; [exact Hm | exact Hwc|].
+  eapply cont_wf_keeps; [exact Hcw | exact (proj2 Hc)].
+Qed.
+
+Lemma rep_del_full s x f : rep m s (snd (del_full m s (x, f))).
+Proof.
+  unfold del_full. cbn [snd]. destruct (f_many (fd m f)) eqn:Hm; cbn [snd].
+  - apply rep_coll_clear_full; exact Hm.
+  - apply rep_set_full.
+Qed.
+
+(* ---- delete ---- *)
+Lemma rep_delete_step x s k : rep m s (delete_step m x s k).
+Proof.
+  destruct k as [owner f]. unfold delete_step. destruct (f_many (fd m f)) eqn:Hm.
+  - destruct (owner =? x); [apply rep_coll_clear_full; exact Hm|].
+    destruct (vmem (VObj x) (vals s (owner, f))); [apply rep_coll_remove_full | apply rep_refl].
+  - destruct ((match single s (owner, f) with VObj y => y =? x | _ => false end) || (owner =? x));
+      [apply rep_set_full | apply rep_refl].
+Qed.
+
+Lemma rep_fold_delete_step x l s : rep m s (fold_left (delete_step m x) l s).
+Proof.
+  revert s; induction l as [|k l IH]; intros s; simpl; [apply rep_refl|].
+  eapply rep_trans; [apply rep_delete_step | apply IH].
+Qed.
+
+Lemma rep_delete_obj fuel s x r : rep m s (delete_obj fuel m s x r).
+Proof.
+  revert s x r; induction fuel as [|fu IH]; intros s x r; simpl; [apply rep_refl|].
+  eapply rep_trans; [|apply rep_fold_delete_step].
+  destruct r; [|apply rep_refl].
+  generalize (econtents m s x). intros l. revert s.
+  induction l as [|c l IHl]; intros s; simpl; [apply rep_refl|].
+  eapply rep_trans; [apply IH | apply IHl].
+Qed.
+
+(* ---- resources ---- *)
+Lemma rep_res_append s r o : rep m s (res_append m s r o).
+Proof.
+  unfold res_append.
+  assert (G : forall s0,
+     rep m s0 (let s1 := set_eres (set_rcont s0 r (rcont s0 r ++ [o])) o (Some r) in
+               match cont s1 o with
+               | Some (p, pf) =>
+                 if f_many (fd m pf)
+                 then (if vmem (VObj o) (vals s1 (p, pf)) then coll_remove_full m s1 (p, pf) (VObj o) else s1)
+                 else snd (set_full m s1 (p, pf) VNone)
+               | None => s1 end)).
+  { intros s0. cbv zeta.
+    set (s1 := set_eres (set_rcont s0 r (rcont s0 r ++ [o])) o (Some r)).
+    assert (H1 : rep m s0 s1) by (unfold s1; rep_quiet_step).
+    eapply rep_trans; [exact H1|].
+    destruct (cont s1 o) as [[p pf]|]; [|apply rep_refl].
+    destruct (f_many (fd m pf)).
+    - destruct (vmem (VObj o) (vals s1 (p, pf))); [apply rep_coll_remove_full | apply rep_refl].
+    - apply rep_set_full. }
+  destruct (eres s o) as [p|]; [|apply G].
+  destruct (nmem o (rcont s p)); [|apply G].
+  destruct (p =? r); [apply rep_refl|].
+  eapply rep_trans; [apply rep_res_remove_raw | apply G].
+Qed.
+
+Lemma rep_res_remove s r o : rep m s (snd (res_remove s r o)).
+Proof.
+  unfold res_remove. destruct (nmem o (rcont s r)); cbn [snd]; [apply rep_res_remove_raw | apply rep_refl].
+Qed.
+
+(* ---- operations ---- *)
+
+(* premises about the call: positional/bulk collection operations address a many-valued
+   feature; item assignment/deletion a unique collection (F-C05-elist-item-write otherwise);
+   bulk addition to a unique collection needs well-formed containers in the metamodel *)
+Definition op_ok (o : op) : Prop :=
+  match o with
+  | OPop x f _ | OClear x f => f_many (fd m f) = true
+  | OExtend x f _ => f_many (fd m f) = true /\ (f_unique (fd m f) = true -> wf_cont m)
+  | OAssign x f _ => f_unique (fd m f) = true -> wf_cont m
+  | OSetItem x f _ _ | ODelItem x f _ => f_many (fd m f) = true /\ f_unique (fd m f) = true
+  | _ => True
+  end.
+
+Theorem rep_op s o : cont_wf m s -> op_ok o -> rep m s (next m s o).
+Proof.
+  intros Hcw Ho. unfold next, step.
+  destruct o as [x f v|x f|x f|x f vs|x f v|x f i v|x f v|x f i|x f|x f vs|x f i v|x f i|x r|r o|r o|r os|x f];
+    cbn [fst snd]; cbn [op_ok] in Ho.
+  - destruct (f_many (fd m f)); [apply rep_refl | apply rep_set_full].
+  - destruct (f_many (fd m f)); [apply rep_refl | apply rep_set_full].
+  - apply rep_del_full.
+  - destruct (f_many (fd m f)) eqn:Hm; [|apply rep_refl]. apply rep_assign_full; assumption.
+  - apply rep_coll_add_full.
+  - apply rep_coll_add_full.
+  - apply rep_coll_remove_top.
+  - apply rep_coll_pop_full; exact Ho.
+  - apply rep_coll_clear_full; exact Ho.
+  - destruct Ho as [Hm Hw]. apply rep_coll_extend_full; assumption.
+  - destruct Ho as [Hm Hu]. apply rep_coll_setitem_full; assumption.
+  - destruct Ho as [Hm Hu]. apply rep_coll_delitem_full; assumption.
+  - apply rep_delete_obj.
+  - apply rep_res_append.
+  - apply rep_res_remove.
+  - clear Hcw. generalize dependent s. induction os as [|o os IH]; intros s; simpl; [apply rep_refl|].
+    eapply rep_trans; [apply rep_res_append | apply IH].
+  - apply rep_refl.
+Qed.
+
+Theorem rep_history ops s :
+  cont_wf m s -> Forall op_ok ops -> rep m s (fold_left (next m) ops s).
+Proof.
+  revert s; induction ops as [|o ops IH]; intros s Hcw Hok; simpl; [apply rep_refl|].
+  inversion Hok as [|? ? Ho Hops]; subst.
+  pose proof (rep_op s o Hcw Ho) as Hr.
+  eapply rep_trans; [exact Hr|]. apply IH; [|exact Hops].
+  eapply cont_wf_keeps; [exact Hcw | exact (proj2 Hr)].
+Qed.
+
 End Procs.
+
+(* ------------------------------------------------------------------ *)
+(* the public statements                                                *)
+(* ------------------------------------------------------------------ *)
+Lemma reported_cells m s s' :
+  reported m s s' <->
+  exists news, log s' = news ++ log s /\
+    forall k, same_content (vals s' k) (mcell m news k (vals s k)).
+Proof.
+  split; intros [news [Hl Hv]]; exists news; (split; [exact Hl|]); intros k;
+    [rewrite <- mirror_cell | rewrite mirror_cell]; apply Hv.
+Qed.
+
+Theorem reported_refl m s : reported m s s.
+Proof. apply rep_reported. apply rep_refl. Qed.
+
+Theorem reported_trans m s1 s2 s3 : reported m s1 s2 -> reported m s2 s3 -> reported m s1 s3.
+Proof.
+  rewrite !reported_cells. intros [n1 [L1 V1]] [n2 [L2 V2]].
+  exists (n2 ++ n1). split; [rewrite L2, L1; apply app_assoc|].
+  intros k. rewrite mcell_app. eapply sc_trans; [apply V2|]. apply sc_mcell. apply V1.
+Qed.
+
+(* the observer respects the comparison: it can be run on any copy with the same contents *)
+Theorem mirror_congruence m news V1 V2 :
+  (forall k, same_content (V1 k) (V2 k)) ->
+  forall k, same_content (mirror m news V1 k) (mirror m news V2 k).
+Proof. intros H k. rewrite !mirror_cell. apply sc_mcell. apply H. Qed.
+
+Theorem mirror_app m n2 n1 V k : mirror m (n2 ++ n1) V k = mirror m n2 (mirror m n1 V) k.
+Proof. unfold mirror. rewrite fold_right_app. reflexivity. Qed.
+
+(* every kernel procedure, in the public form *)
+Theorem reported_procedures m s :
+  (forall k v, reported m s (set_store m s k v)) /\
+  (forall k, reported m s (set_none_raw m s k)) /\
+  (forall k x, reported m s (coll_remove_raw m s k x)) /\
+  (forall x f y, reported m s (update_opposite_remove m s x f y)) /\
+  (forall k v, reported m s (coll_remove_full m s k v)) /\
+  (forall k, reported m s (set_none_full m s k)) /\
+  (forall k y, reported m s (remove_or_unset m s k y)) /\
+  (forall x f v p, reported m s (update_container m s x f v p)) /\
+  (forall k x, reported m s (set_obj_raw m s k x)) /\
+  (forall k x, reported m s (coll_append_raw m s k x)) /\
+  (forall x f y, reported m s (update_opposite_add m s x f y)) /\
+  (forall x f v, reported m s (link_elem m s x f v)) /\
+  (forall x f v, reported m s (unlink_elem m s x f v)) /\
+  (forall k v, reported m s (snd (set_full m s k v))) /\
+  (forall k pos v, reported m s (snd (coll_add_full m s k pos v))) /\
+  (forall k v, reported m s (snd (coll_remove_top m s k v))) /\
+  (forall x f i, f_many (fd m f) = true -> reported m s (snd (fst (coll_pop_full m s (x, f) i)))) /\
+  (forall x f, f_many (fd m f) = true -> reported m s (coll_clear_full m s (x, f))) /\
+  (forall x f vs, f_many (fd m f) = true -> (f_unique (fd m f) = true -> wf_cont m) -> cont_wf m s ->
+     reported m s (snd (coll_extend_full m s (x, f) vs))) /\
+  (forall x f i v, f_many (fd m f) = true -> f_unique (fd m f) = true ->
+     reported m s (snd (coll_setitem_full m s (x, f) i v))) /\
+  (forall x f i, f_many (fd m f) = true -> f_unique (fd m f) = true ->
+     reported m s (snd (coll_delitem_full m s (x, f) i))) /\
+  (forall x f vs, f_many (fd m f) = true -> (f_unique (fd m f) = true -> wf_cont m) -> cont_wf m s ->
+     reported m s (snd (assign_full m s (x, f) vs))) /\
+  (forall x f, reported m s (snd (del_full m s (x, f)))) /\
+  (forall x k, reported m s (delete_step m x s k)) /\
+  (forall fuel x r, reported m s (delete_obj fuel m s x r)) /\
+  (forall r o, reported m s (res_append m s r o)) /\
+  (forall r o, reported m s (snd (res_remove s r o))).
+Proof.
+  repeat split; intros; apply rep_reported.
+  - apply rep_set_store.
+  - apply rep_set_none_raw.
+  - apply rep_coll_remove_raw.
+  - apply rep_update_opposite_remove.
+  - apply rep_coll_remove_full.
+  - apply rep_set_none_full.
+  - apply rep_remove_or_unset.
+  - apply rep_update_container.
+  - apply rep_set_obj_raw.
+  - apply rep_coll_append_raw.
+  - apply rep_update_opposite_add.
+  - apply rep_link_elem.
+  - apply rep_unlink_elem.
+  - apply rep_set_full.
+  - apply rep_coll_add_full.
+  - apply rep_coll_remove_top.
+  - apply rep_coll_pop_full; assumption.
+  - apply rep_coll_clear_full; assumption.
+  - apply rep_coll_extend_full; assumption.
+  - apply rep_coll_setitem_full; assumption.
+  - apply rep_coll_delitem_full; assumption.
+  - apply rep_assign_full; assumption.
+  - apply rep_del_full.
+  - apply rep_delete_step.
+  - apply rep_delete_obj.
+  - apply rep_res_append.
+  - apply rep_res_remove.
+Qed.
+
+Theorem reported_op m s o : cont_wf m s -> op_ok m o -> reported m s (next m s o).
+Proof. intros Hc Ho. apply rep_reported. apply rep_op; assumption. Qed.
+
+(* the invariant used by the frame facts is established by the histories themselves *)
+Theorem cont_wf_history m ops :
+  Forall (op_ok m) ops -> cont_wf m (fold_left (next m) ops (init_state m)).
+Proof.
+  intros Hok. eapply cont_wf_keeps; [apply cont_wf_init|].
+  exact (proj2 (rep_history m ops (init_state m) (cont_wf_init m) Hok)).
+Qed.
+
+Theorem reported_history m ops s :
+  cont_wf m s -> Forall (op_ok m) ops -> reported m s (fold_left (next m) ops s).
+Proof. intros Hc Hok. apply rep_reported. apply rep_history; assumption. Qed.
+
+(* the mirror theorem *)
+Theorem mirror_history m ops :
+  Forall (op_ok m) ops ->
+  let s := fold_left (next m) ops (init_state m) in
+  forall k, same_content (vals s k) (mirror m (log s) (vals (init_state m)) k).
+Proof.
+  intros Hok s k.
+  destruct (reported_history m ops (init_state m) (cont_wf_init m) Hok) as [news [Hl Hv]].
+  fold s in Hl, Hv. cbn [log init_state] in Hl. rewrite app_nil_r in Hl. rewrite Hl. apply Hv.
+Qed.
+
+(* for unique features (sets) the comparison gives in particular the same members *)
+Theorem same_content_members l1 l2 v : same_content l1 l2 -> vmem v l1 = vmem v l2.
+Proof. intros H. apply sc_vmem. exact H. Qed.
+
+Theorem same_content_length l1 l2 : same_content l1 l2 -> length l1 = length l2.
+Proof.
+  revert l2. induction l1 as [|a l1 IH]; intros l2 H.
+  - destruct l2 as [|b l2]; [reflexivity|]. specialize (H b). rewrite cnt_nil, cnt_cons in H.
+    unfold ind in H. rewrite veqb_refl in H. discriminate.
+  - assert (Hm : vmem a l2 = true).
+    { rewrite vmem_cnt, <- (H a), cnt_cons. unfold ind. rewrite veqb_refl. reflexivity. }
+    assert (Hr : same_content l1 (raw_remove a l2)).
+    { intros w. rewrite cnt_raw_remove, Hm, <- (H w), cnt_cons. lia. }
+    simpl length. rewrite (IH _ Hr). unfold raw_remove.
+    destruct (remove_first veqb a l2) as [l'|] eqn:E.
+    + clear -E. revert l' E. induction l2 as [|y l2 IH2]; simpl; intros l' E; [discriminate|].
+      destruct (veqb y a); [inversion E; reflexivity|].
+      destruct (remove_first veqb a l2) as [r|]; [|discriminate]. inversion E; subst. simpl.
+      f_equal. apply IH2. reflexivity.
+    + apply remove_first_none in E. congruence.
+Qed.
+
+(* completeness read the other way: a slot that no new notification names kept its content *)
+Theorem unreported_unchanged m s s' k news :
+  reported m s s' -> log s' = news ++ log s -> Forall (fun n => ncell n <> k) news ->
+  same_content (vals s' k) (vals s k).
+Proof.
+  intros Hr Hl Hq. apply reported_cells in Hr. destruct Hr as [n1 [L1 V1]].
+  assert (E : n1 = news) by (apply (app_inv_tail (log s)); congruence). subst n1.
+  specialize (V1 k). rewrite (mcell_quiet m news k _ Hq) in V1. exact V1.
+Qed.
+
+(* ------------------------------------------------------------------ *)
+(* what is false of the model (and of the implementation)               *)
+(* ------------------------------------------------------------------ *)
+Definition run (m : mm) (ops : list op) : state := fold_left (next m) ops (init_state m).
+Definition observed (m : mm) (ops : list op) (k : cell) : list value :=
+  mirror m (log (run m ops)) (vals (init_state m)) k.
+
+Definition mm_list : mm :=
+  {| feats := [ {| f_owner := 0; f_isref := false; f_many := true; f_unique := false; f_cont := false;
+                   f_opp := None; f_type := TInt; f_default := VNone |} ];
+     conf := [(0, 0)]; ocls := [0]; enames := []; nres := 0 |}.
+
+(* known finding F-C05-elist-item-write: del c[i] and c[i] = v on a list-based collection *)
+Example item_write_refuted :
+  let del := [OAppend 0 0 (VInt 7); ODelItem 0 0 0%Z] in
+  let set := [OAppend 0 0 (VInt 7); OSetItem 0 0 0%Z (VInt 8)] in
+  vals (run mm_list del) (0, 0) = [] /\ observed mm_list del (0, 0) = [VInt 7] /\
+  vals (run mm_list set) (0, 0) = [VInt 8] /\ observed mm_list set (0, 0) = [VInt 7; VInt 8].
+Proof. vm_compute. repeat split; reflexivity. Qed.
+
+Definition rf (many cont : bool) (opp : option fid) : fdecl :=
+  {| f_owner := 0; f_isref := true; f_many := many; f_unique := true; f_cont := cont;
+     f_opp := opp; f_type := TClass 0; f_default := VNone |}.
+
+(* a containment g whose opposite f is MANY-valued (wf_cont fails): x.f.extend([p, b]) with
+   x contained in p.g moves x into b.g, which removes p from x.f between the silent write of
+   the own slot and the ADD_MANY: the observer ends with [p; b], the object holds [b] *)
+Definition mm_badcont : mm :=
+  {| feats := [ rf true false (Some 1); rf true true (Some 0) ];
+     conf := [(0, 0)]; ocls := [0; 0; 0]; enames := []; nres := 0 |}.
+
+Example extend_needs_wf_cont_refuted :
+  let ops := [OAppend 1 1 (VObj 0); OExtend 0 0 [VObj 1; VObj 2]] in
+  vals (run mm_badcont ops) (0, 0) = [VObj 2] /\
+  observed mm_badcont ops (0, 0) = [VObj 1; VObj 2] /\
+  ~ wf_cont mm_badcont.
+Proof.
+  split; [vm_compute; reflexivity|]. split; [vm_compute; reflexivity|].
+  intros H. destruct (H 0 1 eq_refl eq_refl) as [H1 _]. discriminate.
+Qed.
+
+(* non-vacuity: a bidirectional many-many reference, a containment with its container end and an
+   attribute; the history moves a child, extends, pops and deletes; the mirror holds at every cell *)
+Definition mm_ok : mm :=
+  {| feats := [ rf true false (Some 1); rf true false (Some 0);       (* 0 <-> 1, many-many *)
+                rf true true (Some 3); rf false false (Some 2) ];     (* 2 kids <-> 3 parent *)
+     conf := [(0, 0)]; ocls := [0; 0; 0; 0]; enames := []; nres := 0 |}.
+
+Example mirror_witness :
+  let ops := [OAppend 0 2 (VObj 1); OExtend 2 2 [VObj 1; VObj 3]; OExtend 0 0 [VObj 1; VObj 2];
+              OSet 3 3 (VObj 0); OPop 0 0 0%Z; OSetItem 2 2 0%Z (VObj 0); ODelete 1 true] in
+  wf_cont mm_ok /\ Forall (op_ok mm_ok) ops /\
+  map n_kind (log (run mm_ok ops)) <> [] /\
+  forallb (fun k => match vals (run mm_ok ops) k, observed mm_ok ops k with
+                    | l1, l2 => forallb (fun v => vmem v l2) l1 && forallb (fun v => vmem v l1) l2 end)
+          (list_prod [0; 1; 2; 3] [0; 1; 2; 3]) = true.
+Proof.
+  assert (Hw : wf_cont mm_ok).
+  { intros f g Hfg Hc. destruct f as [|[|[|[|f]]]]; destruct g as [|[|[|[|g]]]];
+      try discriminate; try (split; reflexivity).
+    all: try (destruct f as [|[|f]]; discriminate).
+    all: try (destruct g as [|[|g]]; discriminate). }
+  split; [exact Hw|]. split.
+  { repeat (apply Forall_cons;
+      [cbn [op_ok]; try exact I; try reflexivity;
+       try (split; [reflexivity | try reflexivity; intros _; exact Hw])|]).
+    apply Forall_nil. }
+  split; [vm_compute; discriminate | vm_compute; reflexivity].
+Qed.
